@@ -10,12 +10,16 @@ import Driver.C16Gen
     lock <ver> <( dep ... )> <( plugin ... )>
                                      -> err | ok <lock> <( written dep ... )> <( written plugin ... )> <same|err|…>
     gen <( version body env )>      -> see lean/Driver/C16Gen.lean (buf.gen.yaml, same err|ok … shape)
-    migws <( (dir ((root (excl…)) …)) … )> <( file … )>
-                                     -> ( before ) ( v2 module … ) ( after ) agree|DISAGREE
+    migws <( (dir ((root (excl…)) …) lintOff breakingOff) … )> <( file … )>
+                                     -> ( before ) ( (v2 module dir (excl…) lintOff breakingOff) … ) ( after ) agree|DISAGREE
        dirs relative to the destination directory; before/after: per file the owner triples
        (module dir, root, root-relative path) computed by BufModel.Config.owners on the v1
        workspace resp. on the modules of readV2 (writeV2 (migrateFile ws)); agree = after is a
-       permutation of before renamed by migratedOwner (theorem migrate_preserves_targets_partial)
+       permutation of before renamed by migratedOwner (theorem migrate_preserves_targets_partial);
+       lintOff / breakingOff: the checks of the module are switched off (`ignore: [.]`); the
+       migrator is `migrateFile (equivLint enabledOf) (equivBreaking enabledOf)` (as coded after
+       the fix: a disabled check config stays disabled, theorem migrate_keeps_disabled) and the
+       flags of the v2 modules are those the v2 reader returns for the written file
 
   ext doc layouts (positional):
     lint      ( use except ignore ignoreOnly enumZero rpcSame rpcReq rpcResp svcSuffix commentFlag disableBuiltin )
@@ -261,8 +265,10 @@ def handleMigWs (wsN filesN : Node) : String :=
   | some ms, some fs =>
     let ws : Option (List Module) := ms.mapM fun m =>
       match m with
-      | .list [dir, roots] => do
+      | .list [dir, roots, ld, bd] => do
         let d ← (normP (← dir.asAtom)).nv
+        let lOff ← ld.asBool
+        let bOff ← bd.asBool
         let rs ← (← roots.asList).mapM fun r =>
           match r with
           | .list [root, excl] => do
@@ -270,11 +276,12 @@ def handleMigWs (wsN filesN : Node) : String :=
             let ex ← (← excl.asStrs).mapM fun s => (normP s).nv
             pure (⟨rk, [], ex⟩ : Root)
           | _ => none
-        pure (⟨d, [], rs, dfltLint, dfltBreaking⟩ : Module)
+        pure (⟨d, [], rs, if lOff then { dfltLint with chk := Check.disabledCfg } else dfltLint,
+                if bOff then { dfltBreaking with chk := Check.disabledCfg } else dfltBreaking⟩ : Module)
       | _ => none
     match ws, fs.mapM (fun f => (normP f).nv) with
     | some ws, some fks =>
-      match migrateFile id id ws [] with
+      match migrateFile (equivLint enabledOf) (equivBreaking enabledOf) ws [] with
       | none => "migrate-none"
       | some c =>
         match readV2 (writeV2 c) with
@@ -283,7 +290,8 @@ def handleMigWs (wsN filesN : Node) : String :=
           let before := fks.map fun f => sortStable ownerLt (owners ws f)
           let after := fks.map fun f => sortStable ownerLt (owners c'.modules f)
           let mods := L (c'.modules.map fun m =>
-            L [keyN m.dirPath, keysN ((m.roots.headD ⟨[], [], []⟩).excludes.map fun x => m.dirPath ++ x)])
+            L [keyN m.dirPath, keysN ((m.roots.headD ⟨[], [], []⟩).excludes.map fun x => m.dirPath ++ x),
+               B m.lint.chk.disabled, B m.breaking.chk.disabled])
           let agree := (fks.all fun f => permB (owners c'.modules f) ((owners ws f).map migratedOwner)) && decide (c' = c)
           render (L (before.map fun os => L (os.map tripleN))) ++ " " ++ render mods ++ " " ++
             render (L (after.map fun os => L (os.map tripleN))) ++ " " ++ (if agree then "agree" else "DISAGREE")
